@@ -236,6 +236,14 @@ def exc_name(e):
     return type(e).__name__
 
 
+def emsg(e, n=120):
+    """Exception text without the random scratch directory name (keeps the one-line description stable)."""
+    t = str(e)
+    if _ROOT[0]:
+        t = t.replace(os.path.dirname(_ROOT[0]), "<scratch>")
+    return t[:n]
+
+
 class Tally(object):
     def __init__(self):
         self.vs = {}
@@ -254,6 +262,9 @@ class Tally(object):
 
 def load_compare(tally, mgr, fmt, pathlabel, target, want, case, nontrivial, loader=None):
     """Run the real loader on target, compare field-wise.  -> True when equal."""
+    # one signature per load site: the profile variants (never used / first ever / existing) differ in how the
+    # file got there, not in how it is loaded; the variant stays in the description and in the case
+    sigpath = "profile" if pathlabel.startswith("profile") else pathlabel
     tally.loads += 1
     tally.paths[pathlabel] = tally.paths.get(pathlabel, 0) + 1
     if nontrivial:
@@ -262,20 +273,20 @@ def load_compare(tally, mgr, fmt, pathlabel, target, want, case, nontrivial, loa
         cfg = loader() if loader else mgr.load(target)
     except Exception as e:
         tally.outcomes.add((fmt, pathlabel, "raises:" + exc_name(e)))
-        tally.v("C19:raises:load:%s:%s:%s" % (fmt, pathlabel, exc_name(e)),
-                "loading a %s config via %s raised %s: %s" % (fmt, pathlabel, exc_name(e), str(e)[:120]),
+        tally.v("C19:raises:load:%s:%s:%s" % (fmt, sigpath, exc_name(e)),
+                "loading a %s config via %s raised %s: %s" % (fmt, pathlabel, exc_name(e), emsg(e)),
                 dict(case, path=pathlabel), {"exception": repr(e)[:300]})
         return False
     if cfg is None:
         tally.outcomes.add((fmt, pathlabel, "not-loaded"))
-        tally.v("C19:roundtrip:%s:%s:not-loaded" % (fmt, pathlabel),
+        tally.v("C19:roundtrip:%s:%s:not-loaded" % (fmt, sigpath),
                 "a saved %s config was not found when loaded via %s" % (fmt, pathlabel), dict(case, path=pathlabel))
         return False
     d = diff(want, cfg)
     if d is not None:
         name, kind, w, g = d
         tally.outcomes.add((fmt, pathlabel, "diff:%s:%s" % (name, kind)))
-        tally.v("C19:roundtrip:%s:%s:%s:%s" % (fmt, pathlabel, name, kind),
+        tally.v("C19:roundtrip:%s:%s:%s:%s" % (fmt, sigpath, name, kind),
                 "field %s differs (%s) after %s save + load via %s" % (name, kind, fmt, pathlabel),
                 dict(case, path=pathlabel), {"field": name, "saved": w, "loaded": g})
         return False
@@ -354,7 +365,7 @@ def rt_case(tally, mgr, filesdir, mask, vi, fmt, override=None, tag=None, profil
         fresh_ok = False
         tally.outcomes.add((fmt, "profile-fresh", "save-raises:" + exc_name(e)))
         tally.v("C19:raises:save-profile-fresh:%s" % exc_name(e),
-                "first ever save to a profile (no directory yet) raised %s: %s" % (exc_name(e), str(e)[:100]),
+                "first ever save to a profile (no directory yet) raised %s: %s" % (exc_name(e), emsg(e, 100)),
                 dict(case, path="profile-fresh"), repr(e)[:300])
     if fresh_ok:
         load_compare(tally, mgr, fmt, "profile-fresh", profile, want, case, nt)
@@ -518,7 +529,7 @@ def extras_chunk(_):
                         mgr.save("491234567890", make_config(vals), TYPE[fmt])
                     except Exception as e:
                         tally.v("C19:raises:save-profile-fresh:%s" % exc_name(e),
-                                "first ever save to a profile (no directory yet) raised %s: %s" % (exc_name(e), str(e)[:100]),
+                                "first ever save to a profile (no directory yet) raised %s: %s" % (exc_name(e), emsg(e, 100)),
                                 case, repr(e)[:300])
                     else:
                         load_compare(tally, mgr, fmt, "profile-first-ever", "491234567890", want_obs(vals), case, True)
@@ -680,10 +691,10 @@ def crash_pair(pair):
         if raised is not None:
             if pair["old"] is None and not pair["dir_exists"]:
                 sig = "C19:raises:save-profile-fresh:%s" % exc_name(raised)
-                what = "first ever save to a profile (no directory yet) raised %s: %s" % (exc_name(raised), str(raised)[:100])
+                what = "first ever save to a profile (no directory yet) raised %s: %s" % (exc_name(raised), emsg(raised, 100))
             else:
                 sig = "C19:raises:%s:%s" % (entry, exc_name(raised))
-                what = "%s raised %s: %s" % (entry, exc_name(raised), str(raised)[:100])
+                what = "%s raised %s: %s" % (entry, exc_name(raised), emsg(raised, 100))
             tally.v(sig, what, case, repr(raised)[:300])
 
         # the state the operation leaves when nothing crashes must load as the new configuration
@@ -721,7 +732,7 @@ def crash_pair(pair):
                             if c2[0] != "new":
                                 resave = "loads as %s" % c2[0]
                         except Exception as e:
-                            resave = "raises %s: %s" % (exc_name(e), str(e)[:100])
+                            resave = "raises %s: %s" % (exc_name(e), emsg(e, 100))
                         tally.loads += 1
                     out = out + (resave,)
                 finally:
